@@ -2,7 +2,7 @@
    `gather` is the line-by-line model of scores.utils.gather_dimensions (coq/lib/Dims.v), tied to the code by an
    exhaustive correspondence over a 4-name universe; `mean_score` is the functional every mean-type score instantiates
    (coq/lib/Larr.v).  All statements hold for arbitrary lists of dimension names (no bound on their number). *)
-From V Require Import lib.Tree proofs.C01 model.C05 proofs.C01_scores.
+From V Require Import lib.Tree lib.Plumbing gen.Gen_C01_plumbing proofs.C01 model.C05 proofs.C01_scores proofs.C01_plumbing.
 Open Scope string_scope.
 
 (* naming both options is a ValueError, whatever else is passed *)
@@ -101,6 +101,30 @@ Theorem C01_score_result_dims : forall k f o w rd pd R r, gather (ldims f) (ldim
   forall d, mem d (ldims r) = mem d (ldims (apply_weights w (lzip k f o))) && negb (mem d R).
 Proof. exact simple_mean_result_dims. Qed.
 Print Assumptions C01_score_result_dims.
+
+(* ---- the plumbing of the public functions, READ FROM THE CURRENT SOURCE on every run (translator site kind `plumbing`),
+        is the plumbing the models above implement: which dimension sets go to the rule, weights before the reduction,
+        which reduction over the gathered dimensions ---- *)
+Theorem C01_plumbing_mean_type : Forall (fun p => p = plumb_mean "fcst.dims" "obs.dims") mean_type_functions.
+Proof. exact mean_type_plumbing. Qed.
+Print Assumptions C01_plumbing_mean_type.
+Theorem C01_plumbing_interval : plumb_quantile_interval_score = plumb_mean "fcst_lower_qtile.dims" "obs.dims".
+Proof. exact interval_plumbing. Qed.
+Print Assumptions C01_plumbing_interval.
+Theorem C01_plumbing_ratio : plumb_multiplicative_bias = plumb_ratio "fcst.dims" "obs.dims" /\ plumb_pbias = plumb_ratio "fcst.dims" "obs.dims".
+Proof. exact ratio_plumbing. Qed.
+Print Assumptions C01_plumbing_ratio.
+Theorem C01_plumbing_ensemble : plumb_crps_for_ensemble = plumb_mean_specific "fcst.dims" "obs.dims" /\
+                                plumb_brier_score_for_ensemble = plumb_mean_specific "fcst.dims" "obs.dims".
+Proof. exact ensemble_plumbing. Qed.
+Print Assumptions C01_plumbing_ensemble.
+Theorem C01_plumbing_pod_pofd : plumb_probability_of_detection = plumb_sum2 "fcst.dims" "obs.dims" /\
+                                plumb_probability_of_false_detection = plumb_sum2 "fcst.dims" "obs.dims".
+Proof. exact pod_pofd_plumbing. Qed.
+Print Assumptions C01_plumbing_pod_pofd.
+Theorem C01_plumbing_murphy : plumb_murphy_score = plumb_mean_unweighted "fcst.dims" "obs.dims".
+Proof. exact murphy_plumbing. Qed.
+Print Assumptions C01_plumbing_murphy.
 
 Example C01_nonvacuous : dsubset ["a"] (all_data ["a"; "b"] ["b"] None) = true /\ "a" <> "all" /\ "a" <> "".
 Proof. repeat split; try reflexivity; discriminate. Qed.
